@@ -90,12 +90,37 @@ Proof. exact bad_pair_rejected. Qed.
 Print Assumptions C06_bad_pair_rejected.
 
 (* ---------------------------------------------------------------- (D) key derivations *)
-(* MAC -> 64-bit: full, for every 6-byte MAC, both Go helpers against both C helpers and the closed form *)
-Theorem C06_mac_key_agree : forall mac, wf_bytes_n 6 mac ->
+(* MAC -> 64-bit.  6-byte MACs (the only length antispoof accepts, and what Ethernet carries): both Go helpers against
+   both C helpers and the closed form *)
+Theorem C06_mac_key_agree_len6 : forall mac, wf_bytes_n 6 mac ->
   go_mac_key_ebpf mac = c_mac_key_dhcp mac /\ go_mac_key_antispoof mac = c_mac_key_antispoof mac /\
   go_mac_key_ebpf mac = spec_mac_key mac /\ go_mac_key_antispoof mac = spec_mac_key mac.
 Proof. exact mac_key_agree. Qed.
-Print Assumptions C06_mac_key_agree.
+Print Assumptions C06_mac_key_agree_len6.
+
+(* DHCP hardware addresses of ANY length >= 6 (hlen 6..16, e.g. EUI-64): ebpf.MACToUint64 uses the first six bytes,
+   as the program does with chaddr.  Guard [mac_len_guard] = 6 <= len, the one the driver steers with. *)
+Theorem C06_mac_key_agree_partial : forall mac, (6 <= List.length mac)%nat -> Forall (fun b => b < 256) mac ->
+  go_mac_key_ebpf mac = c_mac_key_dhcp_chaddr mac /\ go_mac_key_ebpf mac = spec_mac_key (firstn 6 mac).
+Proof. exact mac_key_agree_ge6. Qed.
+Print Assumptions C06_mac_key_agree_partial.
+Example C06_mac_guard_satisfiable : mac_len_guard [2; 0; 94; 16; 0; 0; 0; 1] = true /\
+  go_mac_key_ebpf [2; 0; 94; 16; 0; 0; 0; 1] = [0; 0; 16; 94; 0; 2; 0; 0].
+Proof. vm_compute. split; reflexivity. Qed.
+
+(* below six bytes the Go helper returns 0 whatever the address (pinned by loader_test.go), the program still reads
+   chaddr[0..5]: refuted (hlen 1, address 01) *)
+Theorem C06_mac_key_short_is_zero : forall mac, (List.length mac < 6)%nat -> go_mac_key_ebpf mac = zeros 8.
+Proof. exact mac_key_short_zero. Qed.
+Print Assumptions C06_mac_key_short_is_zero.
+Theorem C06_mac_key_agree_refuted :
+  ~ (forall mac, (List.length mac <= 16)%nat -> Forall (fun b => b < 256) mac -> go_mac_key_ebpf mac = c_mac_key_dhcp_chaddr mac).
+Proof. exact mac_key_short_refuted. Qed.
+Print Assumptions C06_mac_key_agree_refuted.
+(* antispoof.AddBinding writes a key only for 6-byte MACs *)
+Theorem C06_antispoof_add_only_len6 : forall mac, (List.length mac <> 6)%nat -> go_mac_antispoof_add mac = None.
+Proof. exact antispoof_add_only_len6. Qed.
+Print Assumptions C06_antispoof_add_only_len6.
 
 (* VLAN pair: full, for every pair of 12-bit ids and every priority/DEI bits carried in the two tags *)
 Theorem C06_vlan_key_agree : forall s c p1 p2, s < 4096 -> c < 4096 ->
@@ -124,6 +149,33 @@ Theorem C06_circuit_key_long_no_c_key : forall cid, (CID_LEN < List.length cid)%
   c_cid_key cid = None /\ go_cid_key cid = firstn CID_LEN cid.
 Proof. exact circuit_key_long_no_c_key. Qed.
 Print Assumptions C06_circuit_key_long_no_c_key.
+
+(* the extraction as coded (Model c_extract_cid: branch 1 = option 82 at options offset 3, branch 2 = scan of offsets
+   12..19): whenever a circuit-id of 1..32 bytes sits where either branch looks, in the sub-option layout the program
+   expects, the key it extracts is the key MakeCircuitIDKey writes *)
+Theorem C06_circuit_extract_branch1_agree : forall opts avail cid,
+  (64 <= avail)%nat -> ob opts 3 = 82 -> 4 <= ob opts 4 -> (5 + N.to_nat (ob opts 4) <= avail)%nat -> ob opts 5 = 1 ->
+  ob opts 6 = N.of_nat (List.length cid) -> cid_guard cid = true -> (7 + List.length cid <= avail)%nat -> embedded opts 7 cid ->
+  c_extract_cid opts avail = Some (go_cid_key cid).
+Proof. exact extract_branch1_agree. Qed.
+Print Assumptions C06_circuit_extract_branch1_agree.
+Theorem C06_circuit_extract_branch2_agree : forall opts avail p cid,
+  In p scan_positions -> (64 <= avail)%nat -> ob opts 3 <> 82 ->
+  (forall q, In q scan_positions -> (q < p)%nat -> ob opts q <> 82) ->
+  ob opts p = 82 -> (p + 8 <= avail)%nat -> 4 <= ob opts (p + 1) -> ob opts (p + 2) = 1 ->
+  ob opts (p + 3) = N.of_nat (List.length cid) -> cid_guard cid = true -> (p + 4 + List.length cid <= avail)%nat ->
+  embedded opts (p + 4) cid -> c_extract_cid opts avail = Some (go_cid_key cid).
+Proof. exact extract_branch2_agree. Qed.
+Print Assumptions C06_circuit_extract_branch2_agree.
+Example C06_circuit_extract_satisfiable :
+  c_extract_cid [53; 1; 1; 82; 9; 1; 3; 97; 98; 99; 2; 2; 114; 114; 255] 312 = Some (go_cid_key [97; 98; 99]) /\
+  c_extract_cid [53; 1; 1; 61; 7; 1; 170; 170; 170; 170; 170; 170; 82; 9; 1; 3; 97; 98; 99; 2; 2; 114; 114; 255] 312 = Some (go_cid_key [97; 98; 99]).
+Proof. vm_compute. split; reflexivity. Qed.
+(* the hypothesis 4 <= option length is needed: an option 82 holding only a one-byte circuit-id is skipped *)
+Theorem C06_circuit_extract_short_option_refuted :
+  cid_guard [65] = true /\ c_extract_cid [53; 1; 1; 82; 3; 1; 1; 65; 255] 312 = None /\ go_cid_key [65] <> zeros 32.
+Proof. exact extract_short_option_refuted. Qed.
+Print Assumptions C06_circuit_extract_short_option_refuted.
 
 (* IPv4 -> 32-bit: every Go helper leaves the address byte-reversed in the map (full statement of the defect) ... *)
 Theorem C06_ipv4_go_bytes_reversed : forall ip, wf_bytes_n 4 ip -> go_ip_bytes ip = rev ip /\ go_ip_bytes_qos ip = rev ip.
